@@ -66,7 +66,7 @@ CHECKS = {
          "equals the reference encoding of the corresponding vector and that a lying iterator ends in LengthMismatch(actual, "
          "announced) for all announced lengths 0..3; replay: the real stream of the source is byte-compared with the real stream "
          "of the vector, deserialized as the vector type in both modes, and lying iterators are replayed.",
-         "6 C16"),
+         "6 C18"),
  "C10": ("model checking + conformance replay (mutation of real streams)",
          "MC_Reader: after the serializer machine, every single-bit flip of the 29 fixed header bytes, the byte-reversed cookie "
          "and boundary minor versions are applied and both reader machines run; TLC checks HeaderRule (the specific error with "
